@@ -56,7 +56,10 @@ class Model:
                     vv = v.reshape(1, -1) if v.ndim == 1 else v
                     vv = np.broadcast_to(vv, (len(np.unique(P)), vv.shape[-1]))
                     rows = {p: r for r, p in enumerate(np.unique(P))}
-                    vals = np.array([vv[rows[p], i] for p, i in zip(P, I)])
+                    # with skipped components the value has one column per *selected* component (documented for skip=)
+                    active = sorted(set(int(i) for i in I))
+                    col = {i: (active.index(i) if vv.shape[-1] == len(active) < b.field.dim else i) for i in active}
+                    vals = np.array([vv[rows[p], col[int(i)]] for p, i in zip(P, I)])
             else:
                 vals = np.full(len(P), float(v))
             for p, i, val in zip(P, I, vals):
@@ -263,7 +266,8 @@ def random_bounds(rng, field, mesh, tag):
         fm = f.region.mesh
         dimm = fm.dim
         dim = f.dim
-        style = str(rng.choice(["float", "callable", "and", "skip", "pointmask", "dofmask", "array-dim", "array-full"]))
+        style = str(rng.choice(["float", "callable", "and", "skip", "pointmask", "dofmask", "array-dim", "array-full", "or2", "three", "array-skip",
+                                "mask-skip", "update"]))
         kw = {}
         X = fm.points
         ax = int(rng.integers(0, dimm))
@@ -295,11 +299,39 @@ def random_bounds(rng, field, mesh, tag):
             kw["value"] = rng.standard_normal(dim)
         elif style == "array-full":
             kw[names[ax]] = float(hi)
+        elif style == "or2":
+            # the default mode: union of two coordinate predicates
+            ax2 = (ax + 1) % dimm
+            thr = X[:, ax2].min() + 0.6 * (X[:, ax2].max() - X[:, ax2].min())
+            kw[names[ax]] = float(lo)
+            kw[names[ax2]] = (lambda x, thr=thr: x > thr) if rng.integers(0, 2) else float(X[:, ax2].min())
+        elif style == "three":
+            for a_ in range(dimm):
+                kw[names[a_]] = float(X[:, a_].min()) if rng.integers(0, 2) else (lambda x, t=float(np.median(X[:, a_])): x >= t)
+            kw["mode"] = str(rng.choice(["and", "or"]))
+        elif style == "array-skip":
+            kw[names[ax]] = float(hi)
+            sk = [0] * 3
+            if dim > 1:
+                sk[int(rng.integers(0, dim))] = 1
+            kw["skip"] = tuple(sk)
+            kw["value"] = rng.standard_normal(dim - sum(sk[:dim]))
+        elif style == "mask-skip":
+            kw["mask"] = rng.uniform(size=fm.npoints) < 0.3
+            sk = [0] * 3
+            if dim > 1:
+                sk[int(rng.integers(0, dim))] = 1
+            kw["skip"] = tuple(sk[:dim])
+        elif style == "update":
+            kw[names[ax]] = float(lo)
         if "value" not in kw:
             kw["value"] = float(np.round(rng.standard_normal(), 3)) if rng.integers(0, 2) else 0.0
         b = fem.Boundary(f, **kw)
         if style == "array-full":
             b = fem.Boundary(f, **{**kw, "value": rng.standard_normal((len(b.points), dim))})
+        if style == "update":
+            # the value is replaced after construction (what a ramped step does), scalar -> per-component array or other scalar
+            b.update(rng.standard_normal(dim) if rng.integers(0, 2) else float(np.round(rng.standard_normal(), 3)))
         bounds["%s%d" % (tag, k)] = b
         feats.append(style)
     return bounds, feats
@@ -478,8 +510,10 @@ def loadcase_model(name, f, kw):
         moves = kw.get("moves", (0.2, 0.2))
         clampes = kw.get("clampes", (False, False))
         sym_planes(sym)
+        lefts, rights = kw.get("lefts", (None, None)), kw.get("rights", (None, None))
         for k, axis in enumerate(axes):
-            right, left = X[:, axis].max(), X[:, axis].min()
+            right = X[:, axis].max() if rights[k] is None else rights[k]
+            left = X[:, axis].min() if lefts[k] is None else lefts[k]
             trans = [i for i in range(dim) if i != axis]
             if not sym[axis]:
                 add(plane(axis, left), [axis], -moves[k])
@@ -491,7 +525,8 @@ def loadcase_model(name, f, kw):
     elif name == "shear":
         axes = kw.get("axes", (0, 1))
         moves = kw.get("moves", (0.2, 0.0, 0.0))
-        bottom, top = X[:, axes[1]].min(), X[:, axes[1]].max()
+        bottom = X[:, axes[1]].min() if kw.get("bottom") is None else kw["bottom"]
+        top = X[:, axes[1]].max() if kw.get("top") is None else kw["top"]
         if kw.get("sym", True):
             for a in range(dim):
                 if a not in axes:
@@ -532,6 +567,19 @@ def case_loadcases(rep):
                     calls.append(("shear", dict(axes=(axis, ax2[0]), moves=(float(rng.uniform(0.1, 0.5)), 0.0, float(rng.uniform(-0.2, 0.2))),
                                                 sym=bool(rng.integers(0, 2)))))
                     calls.append(("symmetry", dict(axes=symt, x=0.0, y=float(rng.choice([0.0, 3.0])), z=0.0)))
+                    # position arguments on interior grid planes, second-axis clamp, non-zero normal motion in shear
+                    planes = [np.unique(mesh.points[:, a]) for a in range(dim)]
+                    pick = lambda a: (float(planes[a][0 if rng.integers(0, 2) else 1]), float(planes[a][-1 if rng.integers(0, 2) else -2]))
+                    l_, r_ = pick(axis)
+                    calls.append(("uniaxial", dict(axis=axis, left=l_, right=r_, clamped=bool(rng.integers(0, 2)), move=float(rng.uniform(-0.5, 0.5)), sym=False)))
+                    (l0, r0), (l1, r1) = pick(axis), pick(ax2[0])
+                    calls.append(("biaxial", dict(axes=(axis, ax2[0]), lefts=(l0, l1), rights=(r0, r1), moves=(float(rng.uniform(0.1, 0.5)), float(rng.uniform(-0.5, -0.1))),
+                                                  clampes=(bool(rng.integers(0, 2)), bool(rng.integers(0, 2))), sym=False)))
+                    b_, t_ = pick(ax2[0])
+                    calls.append(("shear", dict(axes=(axis, ax2[0]), bottom=b_, top=t_, moves=(float(rng.uniform(0.1, 0.5)), float(rng.uniform(-0.1, 0.1)), float(rng.uniform(-0.2, 0.2))),
+                                                sym=bool(rng.integers(0, 2)))))
+                    calls.append(("symmetry", dict(axes=symt, x=float(planes[0][1]), y=float(planes[1][-1]), z=float(planes[-1][1]) if dim == 3 else 0.0)))
+                    run.units["loadcase:position-arguments"] += 1
                 for name, kw in calls:
                     run._label = "loadcase:%s:%dd" % (name, dim)
                     if name == "symmetry":
@@ -590,7 +638,7 @@ SPEC = {
                        "container-", "container+=", "container-=", "container+list", "getitem", "single-entry-assembly",
                        "solve.partition", "points-without-cells", "fields:2", "fields:3", "loadcase:symmetry",
                        "loadcase:uniaxial", "loadcase:biaxial", "loadcase:shear", "loadcase:uniaxial:values"]
-    + ["feature:" + s for s in ("float", "callable", "and", "skip", "pointmask", "dofmask", "array-dim", "array-full")],
+    + ["feature:" + s for s in ("float", "callable", "and", "skip", "pointmask", "dofmask", "array-dim", "array-full", "or2", "three", "array-skip", "mask-skip", "update")],
     "rule": ("7 container kinds (1..3 fields, constant/linear/disconnected duals, scalar+vector, points without cells) x random "
              "dictionaries of 1..4 possibly overlapping boundaries (coordinate floats/callables, and/or, skip tuples, point and dof "
              "masks, scalar/array values, both insertion orders) judged by post-conditions on dof.partition/apply against the "
